@@ -51,6 +51,20 @@ def _struct_of_gep_store(i):
     return None, None
 
 
+DESTRUCTOR_NAMES = ('of_rs_2m_release', 'of_rs_free', 'of_mod2sparse_free', 'of_mod2dense_free', 'of_free')
+
+
+def is_destructor_part(prog, f, depth=0):
+    """a destructor, or a static helper all of whose call sites are in destructors (a destructor split into pieces)"""
+    if f.name.endswith('release_codec_instance') or f.name in DESTRUCTOR_NAMES:
+        return True
+    if not f.internal or depth > 2:
+        return False
+    sites = prog.callers(f.name)
+    sites = [c for c in sites if c.fn.unit is f.unit]
+    return bool(sites) and all(is_destructor_part(prog, c.fn, depth + 1) for c in sites)
+
+
 def frees_in(prog, f, depth=0):
     """[(call inst, deallocator name, term of freed pointer)] in f, following callees that are passed the object itself
     (e.g. of_rs_2m_release(ofcb))."""
@@ -66,6 +80,12 @@ def frees_in(prog, f, depth=0):
                 continue
             if c.args:
                 out.append((c, c.callee, tt.term(c.args[0]), f, c))
+        else:
+            # a static helper of the unit that is handed the object itself (a destructor split into pieces)
+            g = prog.callee_fn(c) if c.callee else None
+            if g is not None and g.internal and g.unit is f.unit and depth < 2 and c.args and tt.term(c.args[0]) == ('param', 0):
+                for (c2, n2, t2, gi, ci) in frees_in(prog, g, depth + 1):
+                    out.append((c, n2, t2, gi, ci))
     return out
 
 
@@ -222,9 +242,24 @@ def _helper_sweep(prog, D, dt, table_term):
         if g is None or not g.internal or g.unit is not D.unit:
             continue
         js = [j for j, a0 in enumerate(c.args) if dt.term(a0) == table_term]
-        if not js:
-            continue
         gt = Terms(g)
+        if not js:
+            # the helper may be handed the object itself and sweep the member table there
+            from .rules_decode import subst_params
+            args = [dt.term(a0) for a0 in c.args]
+            for lp in g.loops.values():
+                lr = loop_range(g, lp, gt)
+                if lr is None:
+                    continue
+                iv = gt.term(_V(lr.iv))
+                for c2 in calls_in_loop(g, lp):
+                    if c2.callee not in DEALLOCATORS:
+                        continue
+                    t2 = gt.term(c2.args[0])
+                    if t2[0] in ('load', 'load@') and t2[1][0] == 'elem' and t2[1][2] == iv and \
+                            subst_params(t2[1][1], args) == table_term:
+                        return c, subst_params(lr.start, args), subst_params(lr.bound, args), lr.pred, lr.step, lr.describe()
+            continue
         for lp in g.loops.values():
             lr = loop_range(g, lp, gt)
             if lr is None:
@@ -823,8 +858,7 @@ def r_dangling(ctx, prog, scope_units=None):
     for f in prog.all_functions:
         if not _in_scope(prog, f, scope_units):
             continue
-        if f.name.endswith('release_codec_instance') or f.name in ('of_rs_2m_release', 'of_rs_free', 'of_mod2sparse_free',
-                                                                     'of_mod2dense_free', 'of_free'):
+        if is_destructor_part(prog, f):
             continue
         tt = Terms(f)
         for c in f.calls():
